@@ -9,6 +9,8 @@ def nontrivial(req, obs):
     if f[0] == "C18.cross":
         # accepted by at least the HLSL flavours, with at least one resource and one pipeline
         return len(f) > 5 and "dx=ok" in f[5] and f[3] != "" and f[4] != ""
+    if f[0] == "C18.annot":
+        return obs.startswith("P") or "{dx:" in obs
     if f[0] == "C18.simplify":
         # at least one cbuffer block in the program
         return " cbuffer " in req
@@ -75,7 +77,7 @@ def search(ctx):
 
 SPEC = {
     "id": "C18",
-    "gens": ["SlotTables", "CompileTables", "TargetTables", "CbufferTables"],
+    "gens": ["SlotTables", "CompileTables", "TargetTables", "CbufferTables", "PipelineTables", "HlslGenTables", "HlslIntrinsicTables"],
     "lean_modules": ["RsslVerif.Thm.C18"],
     "theorems": [T + n for n in [
         "unmentioned_define_irrelevant", "target_dependent_names", "frontend_target_independent",
@@ -86,7 +88,9 @@ SPEC = {
         "descriptor_tables_equal", "kind_count_from_declaration", "binding_kinds_counts_shared", "dx_vk_bindings_shared",
         "binding_names_kinds_counts_shared_partial", "binding_names_not_shared",
         "simplify_cbuffers_as_modelled", "msl_reflects_simplified_module", "kinds_counts_shared_through_simplify",
-        "bindings_shared_through_simplify_partial", "cbuffer_block_one_binding_everywhere"]],
+        "bindings_shared_through_simplify_partial", "cbuffer_block_one_binding_everywhere",
+        "hlsl_target_sites_as_modelled", "hlsl_exports_differ_only_in_annotations", "dx_vk_differ_only_in_annotations",
+        "vk_vkba_differ_only_where_addresses_are", "dx_vk_differ_only_in_annotations_c01", "dx_has_no_vk_annotations"]],
     "harness": "c18",
     "nontrivial": nontrivial,
     "finding_key": finding_key,
